@@ -348,36 +348,36 @@ len_mismatch_harness!(amt_len_mismatch_0in_1spent, 0, 1);
 // ---------------------------------------------------------------------------------------------------------------
 // zero-value outputs
 
-/// 1 explicit input, output 0 = explicit `v0` to a normal script, output 1 = explicit ZERO with the given script.
-fn zero_value_case(script1: Vec<u8>) -> (Result<(), VerificationError>, [u8; 64], [u8; 64]) {
+/// 1 explicit input and ONE output: an explicit ZERO amount on the given script. (A second, ordinary output would make the
+/// number of collected output commitments depend on a branch that CBMC does not resolve; measured: 12 GB, OOM.)
+/// Every primitive answers "valid", so only the Rust-side admissibility rule is observed.
+fn zero_value_case(script1: Vec<u8>) -> (Result<(), VerificationError>, [u8; 64]) {
     let md = unsafe { Secp256k1::from_raw_all(core::ptr::NonNull::<zffi::Context>::dangling()) };
     let secp: &Secp256k1<All> = unsafe { &*((&*md) as *const Secp256k1<AllPreallocated<'_>> as *const Secp256k1<All>) };
-    unsafe { fm::ALL_VALID = true; } // every primitive answers "valid": only the Rust-side rule is observed (on real code the transaction balances for real)
+    unsafe { fm::ALL_VALID = true; }
     let tag = sym_tag();
     let amt: u64 = kani::any();
     kani::assume(amt != 0);
     let asset = AssetId::from_byte_array(tag);
     let spent = [TxOut { asset: Asset::Explicit(asset), value: Value::Explicit(amt), nonce: Nonce::Null, script_pubkey: Script::new(), witness: TxOutWitness::default() }];
-    let out0 = TxOut { asset: Asset::Explicit(asset), value: Value::Explicit(amt), nonce: Nonce::Null, script_pubkey: Script::from(vec![0x51u8]), witness: TxOutWitness::default() };
-    let out1 = TxOut { asset: Asset::Explicit(asset), value: Value::Explicit(0), nonce: Nonce::Null, script_pubkey: Script::from(script1), witness: TxOutWitness::default() };
-    let tx = Transaction { version: 2, lock_time: crate::LockTime::ZERO, input: vec![mk_input()], output: vec![out0, out1] };
+    let out0 = TxOut { asset: Asset::Explicit(asset), value: Value::Explicit(0), nonce: Nonce::Null, script_pubkey: Script::from(script1), witness: TxOutWitness::default() };
+    let tx = Transaction { version: 2, lock_time: crate::LockTime::ZERO, input: vec![mk_input()], output: vec![out0] };
     let r = tx.verify_tx_amt_proofs(secp, &spent);
     core::mem::forget(tx);
     core::mem::forget(spent);
-    let c = fm::commit_unblinded_raw(amt, &fm::gen_unblinded_raw(&tag));
-    (r, c, c)
+    (r, fm::commit_unblinded_raw(amt, &fm::gen_unblinded_raw(&tag)))
 }
 
 amt_stubs! {
-//@ harness: zero_value_spendable_rejected class=B tier=quick bound="1 explicit input, 2 explicit outputs, the second with amount 0 on a 1-byte script whose opcode is symbolic and not OP_RETURN; primitives answer valid" props=C05 timeout=600
+//@ harness: zero_value_spendable_rejected class=B tier=quick bound="1 explicit input, 1 explicit output with amount 0 on a 1-byte script whose opcode is symbolic and not OP_RETURN; primitives answer valid; unwind 4" props=C05 timeout=600
 //@ clause: a zero-value explicit output on a script that is not provably unspendable makes amount verification fail even when every primitive says valid
-#[kani::unwind(8)]
+#[kani::unwind(4)]
 fn zero_value_spendable_rejected() {
     kani::cover!(models_active(), "libsecp models / recorders active");
     if !models_active() { return; }
     let op: u8 = kani::any();
     kani::assume(op != 0x6a);
-    let (r, _, _) = zero_value_case(vec![op]);
+    let (r, _) = zero_value_case(vec![op]);
     match r {
         Ok(()) => assert!(false, "zero value on a spendable script admitted"),
         Err(e) => { kani::cover!(true); core::mem::forget(e); }
@@ -389,12 +389,12 @@ macro_rules! zero_value_admissible {
     ($name:ident, $script:expr) => {
         amt_stubs! {
         // the number of output commitments depends on whether a zero-value output is skipped, so the loops over them
-        // have a symbolic bound: unwind 8 covers every loop of this harness and of the verifier for <= 2 outputs (unwinding assertions stay on)
-        #[kani::unwind(8)]
+        // have a symbolic bound: unwind 4 covers every loop of this harness and of the verifier for 1 input / 1 output (unwinding assertions stay on)
+        #[kani::unwind(4)]
         fn $name() {
             kani::cover!(models_active(), "libsecp models / recorders active");
             if !models_active() { return; }
-            let (r, c_in, c_out0) = zero_value_case($script);
+            let (r, c_in) = zero_value_case($script);
             match r {
                 Ok(()) => {
                     // admissible, and it contributes nothing to the balance (recorder-based: only with the models in force)
@@ -402,7 +402,7 @@ macro_rules! zero_value_admissible {
                         let ta = unsafe { fm::TALLY_LOG[0] };
                         unsafe { assert!(fm::TALLY_N == 1); }
                         assert!(ta.npos == 1 && fm::eq64(&ta.pos[0], &c_in));
-                        assert!(ta.nneg == 1 && fm::eq64(&ta.neg[0], &c_out0));
+                        assert!(ta.nneg == 0, "the zero-value output contributes nothing to the balance");
                     }
                     kani::cover!(true);
                 }
@@ -415,8 +415,8 @@ macro_rules! zero_value_admissible {
         }
     };
 }
-//@ harness: zero_value_opreturn_admissible class=B tier=quick bound="1 explicit input, 2 explicit outputs, the second with amount 0 on the script OP_RETURN; primitives answer valid; unwind 8" props=C05 timeout=600
-//@ clause: zero-value outputs are admissible on provably unspendable scripts (OP_RETURN burn): the balanced transaction verifies and the zero output is not part of the balance call. EXPECTED TO FAIL on the pinned tree: DESIGN section 6, D9
+//@ harness: zero_value_opreturn_admissible class=B tier=quick bound="1 explicit input, 1 explicit output with amount 0 on the script OP_RETURN; primitives answer valid; unwind 4" props=C05 timeout=600
+//@ clause: zero-value outputs are admissible on provably unspendable scripts (OP_RETURN burn): verification does not fail on it and the zero output is not part of the balance call. EXPECTED TO FAIL on the pinned tree: DESIGN section 6, D9
 zero_value_admissible!(zero_value_opreturn_admissible, vec![0x6au8]);
 //@ harness: zero_value_emptyscript_admissible class=B tier=quick bound="as above with the empty script (zero fee output)" props=C05 timeout=600
 //@ clause: zero-value outputs are admissible on the empty script (zero fee). EXPECTED TO FAIL on the pinned tree: DESIGN section 6, D9
